@@ -65,6 +65,9 @@ def _gen_cfg(r: Rng, ex: str) -> Dict[str, Any]:
     if ex == "rs-mem" and not cfg["rom"] and r.chance(1, 2):
         cfg["readonly"] = [[r.choice([0x10000, 0x30000]), r.choice([0x1000F, 0x300FF])]] \
             if r.chance(1, 2) else [[0x20000, 0x2FFFF]]
+        if r.chance(1, 2):
+            # a protected range inside the internal RAM that the mirror window aliases
+            cfg["readonly"].append(r.choice([[0xB9000, 0xB90FF], [0xBFFF0, 0xBFFFF], [0xB8000, 0xB8003]]))
     if cfg["rom"]:
         rr = r.child("rom")
         cfg["rom_seed"] = rr.choice([0x1234, 0x0BAD, 0x7E57, 0x5EED])
@@ -223,6 +226,9 @@ def _edges(cfg: Dict[str, Any], ex: str) -> List[int]:
         e += [start - 1, start, start + len(data) - 1, start + len(data)]
     for lo, hi in cfg["readonly"]:
         e += [lo - 1, lo, hi, hi - 1, hi + 1]
+        if 0xB8000 <= lo <= 0xBFFFF:
+            for win in (0x80000, 0x98000, 0xB0000):
+                e += [win + (lo & 0x7FFF) - 1, win + (lo & 0x7FFF), win + (hi & 0x7FFF), win + (hi & 0x7FFF) - 1]
     if isinstance(cfg["card"], int):
         e += [0x40000 + cfg["card"] - 1, 0x40000 + cfg["card"] - 2]
     return [x for x in e if x >= 0]
